@@ -350,6 +350,40 @@ def _only_consts_or_now(e):
     return False
 
 
+def _counter_writers(facts, field):
+    """every place in the crate (outside constructors' aggregates) that can change AppCounters.<field> through a reference:
+    a store to the field, a `&mut` borrow of it, or a store of a whole AppCounters value through `&mut AppCounters`"""
+    out = []
+    for b in facts.bodies.values():
+        if b.kind == "promoted" or "::tests::" in b.name:
+            continue
+        for blk in b.blocks:
+            if blk["cleanup"]:
+                continue
+            places = []
+            for st in blk["stmts"]:
+                if st["k"] != "assign":
+                    continue
+                places.append((st["place"], "stores to", st.get("span")))
+                if st["rv"]["k"] == "ref" and st["rv"].get("mut"):
+                    places.append((st["rv"]["place"], "borrows mutably", st.get("span")))
+            t = blk["term"]
+            if t["k"] == "call":
+                places.append((t["dest"], "stores a call result to", t.get("span")))
+            for pl, how, sp in places:
+                proj = pl["proj"]
+                if not any(p_["k"] == "deref" for p_ in proj):
+                    continue
+                fl = [p_ for p_ in proj if p_["k"] == "field" and (p_.get("adt") or "").endswith("AppCounters")]
+                if fl and fl[0].get("name") == field:
+                    out.append((b.name, "%s the field" % how, sp))
+                elif not fl and proj[-1]["k"] == "deref" and how != "borrows mutably":
+                    ty = b.locals[pl["local"]]["ty"]
+                    if ty.get("k") == "ref" and ty.get("mut") and (ty.get("to") or {}).get("path", "").endswith("AppCounters") and len(proj) == 1:
+                        out.append((b.name, "replaces the whole counters value", sp))
+    return out
+
+
 def _returned_local(cb):
     ret_src = None
     for blk in cb.blocks:
@@ -506,6 +540,16 @@ def _cadence(facts, rep, sb, sbb):
                             incs.append((bb, e[3][1], tgt))
     if len(resets) > 1 or len(incs) != 1:
         raise Broken("R12.3: counter writes not recognised (resets=%s incs=%s)" % (resets, incs))
+    # nobody else may write the counter: a second writer (a redraw that rebuilds the whole counters struct, a helper that
+    # borrows the field) changes the cadence the automaton below computes
+    allowed_writers = {x[2] for x in resets} | {x[2] for x in incs} | {sb.name}
+    for wname, how, wspan in _counter_writers(facts, field):
+        ok_w = wname in allowed_writers
+        rep.oblige(ok_w, ("counter-writer", wname, how))
+        if not ok_w:
+            rep.add(Finding("R12.3", "%s : also writes the sweep counter" % wname,
+                            "%s %s: the sweep counter `%s` is not only stepped and reset by the sweep itself, so a sweep is no longer "
+                            "guaranteed every 12 accepted frames (rows may outlive their expiry without bound)" % (wname, how, field), span_loc(wspan)))
     no_reset = not resets
     if no_reset:
         resets = [(sbb, None, None)]
